@@ -61,6 +61,8 @@ CFG = DC.Config("C12", [k for k in D.ALL_KINDS if k != "XBW"], make_cmds, nsets=
                      "prefix ranges) is compared with the parameter-free specification, hence pairwise; hash kinds up to the bijection "
                      "their own extract exhibits. Non-trivial = a query; distinct by (kind, vectors, S, command).")
 
+CFG.probe = True   # regenerated obligations on the probe arithmetic widths + large nearly-full tables
+
 
 def check(run, tier, seed, replay):
     DC.run(run, CFG, tier, seed, replay)
